@@ -171,6 +171,27 @@ def check_b64(crate, rep, tag=""):
         ok = alpha in raw
         rep.add("C20.B64", "C20.B64:encode:alphabet:%s%s" % (eng, tag), ok, enc.where(0), "the compile-time value of general_purpose::%s contains the %s alphabet" % (
             eng, "standard" if alpha is STD_ALPHABET else "url-safe") + ("" if ok else " — VIOLATED"))
+    # one message: the whole input goes through Engine::encode in a single call — base64 of a concatenation is not the concatenation of
+    # base64s unless every piece but the last is a multiple of 3 bytes (pieces encoded separately carry padding / filler bits inside)
+    etr = Tracer(enc)
+    all_calls = [(bb, t) for bb, t in enc.calls()]
+    encs = [(bb, t) for bb, t in all_calls if callee_def(t).endswith("Engine::encode")]
+    piece = sorted({callee_def(t).rsplit("::", 1)[-1] for bb, t in all_calls if callee_def(t).rsplit("::", 1)[-1] in
+                    ("encode_string", "encode_slice", "chunks", "chunks_exact", "windows", "split_at", "push_str", "extend")})
+    ok = bool(encs) and not piece and not enc.natural_loops()
+    why = "piecewise encoding (%s)" % (piece or "loop")
+    if ok:
+        for bb, t in encs:
+            dl = [l for l in etr.operand(t["args"][1]) if l.kind != "cycle"]
+            if not (dl and all(l.kind == "param" and l.detail == 1 and not any(p.startswith(".") or p == "[_]" for p in l.projs) for l in dl)):
+                ok, why = False, "Engine::encode is not applied to the whole input (%s)" % sorted(leaf_str(l) for l in dl)[:2]
+        oks = list(find_aggs(enc, "std::result::Result", "Ok"))
+        for bb, idx, st in oks:
+            ol = [l for l in etr.operand(st["rv"]["ops"][0]) if l.kind != "cycle"]
+            if not (ol and all(l.kind == "call" and l.detail[2] in {e[0] for e in encs} for l in ol)):
+                ok, why = False, "the answer is not Engine::encode's result"
+    rep.add("C20.B64", "C20.B64:encode:one-message%s" % tag, ok, enc.where(encs[0][0]) if encs else enc.where(0), "b64_encode returns Engine::encode(<the whole input>) — one base64 "
+            "message, no piecewise encoding" + ("" if ok else " — VIOLATED: " + why))
     # decode: const per url_safe, alphabets by value
     efd = EdgeFacts(dec, crate)
     dus = kwarg_locals(dec, "url_safe")
